@@ -291,7 +291,30 @@ def run_print(chk, bindir, tier):
                     {"mode": "pipe", "record": {"rc": p.returncode, "completed_runs": len(precs)}})
     elif not precs:
         raise core.ToolError("iohelp pipe produced nothing: " + p.stderr[-500:])
-    allr = recs + precs
+    # the helpers on every concrete implementor of Read / Write (their own overrides included)
+    import re
+    impls = set()
+    for root, _, files in os.walk(os.path.join(core.REPO, "tiny-std", "src")):
+        for fn in files:
+            if fn.endswith(".rs"):
+                for m in re.finditer(r"impl(?:<[^>]*>)?\s+(?:crate::io::)?(Read|Write)\s+for\s+&?([A-Za-z_][A-Za-z0-9_]*)", open(os.path.join(root, fn)).read()):
+                    impls.add(m.group(2))
+    impls -= {"Adapter", "ArgParseCauseBuffer", "__UnixWriter"}     # core::fmt::Write implementors
+    idir = os.path.join(chk.work, "impls")
+    p = core.run_cmd([os.path.join(bindir, "ioimpls"), idir], timeout=1200, check=False)
+    irecs = parse(p)
+    if p.returncode != 0:
+        chk.violate({"op": "impl", "kind": "crash"},
+                    "the concrete-implementor driver died with rc=%s after %d runs: %s" % (p.returncode, len(irecs), p.stderr[-300:].strip()),
+                    {"mode": "impl", "record": {"rc": p.returncode, "completed_runs": len(irecs)}})
+    elif not irecs:
+        raise core.ToolError("ioimpls produced nothing: " + p.stderr[-500:])
+    covered = sorted({r["imp"] for r in irecs})
+    chk.extra["io_implementors_in_source"] = sorted(impls)
+    chk.extra["io_implementors_driven"] = covered
+    chk.extra["io_implementors_not_driven"] = sorted(impls - set(covered))
+    chk.extra["implementor_runs"] = len(irecs)
+    allr = recs + precs + irecs
     if not allr:
         return []
     path = os.path.join(chk.work, "print_pipe.ndjson")
@@ -306,7 +329,17 @@ def run_print(chk, bindir, tier):
     chk.traces += len(allr)
     for i in j[0]["bad"]:
         r = allr[i - 1]
-        if r["op"] == "print":
+        if r["op"] == "impl":
+            kind = "hang" if r["hang"] else ("panic" if r["panic"] else ("error" if r["plan"] == 0 and r["ok"] != 1 else
+                   ("error_swallowed" if r["plan"] == 1 else ("count" if r["mismatch"] == -1 and r["rlen"] == r["len"] else "lost_or_duplicated"))))
+            chk.violate({"op": "impl_%s_%s" % (r["imp"], r["kind"]), "kind": kind},
+                        "%s::%s, %s: %s" % (r["imp"], r["kind"], r["case"],
+                                            ("no answer within the limit (hang)" if r["hang"] else
+                                             ("PANIC " + r["panic"] if r["panic"] else
+                                              "ok=%s, %d of %d expected bytes, first difference at %d, count %d, plan %d" % (
+                                                  r["ok"], r["rlen"], r["len"], r["mismatch"], r["count"], r["plan"])))),
+                        {"mode": "impl", "record": r})
+        elif r["op"] == "print":
             kind = "wrong_descriptor" if r.get("stray") else ("lost_or_duplicated" if r["mismatch"] != -1 or r["rlen"] > r["len"] else "incomplete")
             chk.violate({"op": "print", "kind": kind},
                         "%s of %d bytes over a pipe (%d signals): descriptor received %d bytes (%d on the other standard descriptor), first difference at %d, newline %s, result %s" % (
@@ -323,7 +356,7 @@ def run_print(chk, bindir, tier):
     chk.extra["print_path_runs"] = len(recs)
     chk.extra["print_path_runs_with_signal_during_write"] = sum(1 for r in recs if r["signals"] > 0)
     chk.extra["print_path_cut_short_by_eintr"] = sum(1 for r in recs if r["rlen"] < r["len"])
-    return recs + precs
+    return recs + precs + irecs
 
 
 def falsify(rng, c, o):
@@ -396,7 +429,7 @@ def run(tier):
 
 
 def _run(chk, tier):
-    bindir = core.cargo_build(bins=["iohelp"])
+    bindir = core.cargo_build(bins=["iohelp", "ioimpls"])
     # 1. model checking + generation
     fams = FAMILIES[tier]
     behaviours = []
@@ -563,8 +596,8 @@ def _run(chk, tier):
 def replay(path):
     rp = json.load(open(path))["replay"]
     chk = core.Check("C15", "quick", "model_checking")
-    bindir = core.cargo_build(bins=["iohelp"])
-    if rp.get("mode") in ("print", "pipe"):
+    bindir = core.cargo_build(bins=["iohelp", "ioimpls"])
+    if rp.get("mode") in ("print", "pipe", "impl"):
         # these runs depend on signal timing: re-run the whole mode with the same seed and judge again
         print("recorded:", json.dumps(rp["record"]))
         run_print(chk, bindir, "quick")
